@@ -121,7 +121,7 @@ def absorb_sim(ctx, results, profile):
     matrix = {}
     dist = dict(cases=0, with_allocation=0, with_facility_pairs=0, with_moves=0, with_project_absence=0,
                 with_individual_absence=0, with_contention=0, success=0, failure=0, steps_total=0,
-                dep_kinds={}, exceptions=0)
+                dep_kinds={}, exceptions=0, on_used_object=0)
     for r in results:
         if r.get("infra"):
             ctx.infra.append("case %d: %s" % (r["index"], r["infra"]))
@@ -136,6 +136,7 @@ def absorb_sim(ctx, results, profile):
         dist["with_project_absence"] += bool(fe.get("absence_steps"))
         dist["with_individual_absence"] += bool(fe.get("ind_absence"))
         dist["with_contention"] += bool(fe.get("contention"))
+        dist["on_used_object"] += bool(fe.get("used_object"))
         dist["success"] += fe.get("status") == 1
         dist["failure"] += fe.get("status") == 2
         dist["steps_total"] += r["steps"]
